@@ -5,6 +5,7 @@ import CoapVerif.Lemmas.SortedMultiset
 import CoapVerif.Lemmas.OptionsModel
 import CoapVerif.Lemmas.OptionValuesModel
 import CoapVerif.Lemmas.PoolOptionsModel
+import CoapVerif.Lemmas.OptionGlueModel
 /-!
 # C15 — Option list and message builder behave like a sorted multiset model
 
@@ -30,7 +31,7 @@ buffers and outside the unused part of the value buffer) — are themselves prov
 namespace CoapVerif.Props.C15
 open CoapVerif.Model.Options CoapVerif.Spec.SortedMultiset
 open CoapVerif.Lemmas.SortedMultiset CoapVerif.Lemmas.OptionsModel CoapVerif.Lemmas.OptionValuesModel
-open CoapVerif.Lemmas.PoolOptionsModel
+open CoapVerif.Lemmas.PoolOptionsModel CoapVerif.Lemmas.OptionGlueModel
 
 variable {α : Type}
 
@@ -48,6 +49,12 @@ theorem shape_agrees :
     CoapVerif.Generated.OptionListShape.pathLoopsStrict = true ∧
     CoapVerif.Generated.OptionListShape.setPathValidatesBeforeRemove = true ∧
     CoapVerif.Generated.OptionListShape.resetChecksSizeBeforeOverwrite = true := by decide
+
+/-- … and of the library's own users of the list (`Model/OptionGlue.lean`): `NewObservation` keeps a `.Clone()` of the
+request's options; `ResponseWriter.SetResponse` calls `ResetOptionsTo(opts)` unconditionally. -/
+theorem shape_agrees_glue :
+    CoapVerif.Generated.OptionListShape.observationClonesOptions = true ∧
+    CoapVerif.Generated.OptionListShape.setResponseAlwaysResets = true := by decide
 
 /-! ## 1. binary search (`findPosition`, `Find`) -/
 
@@ -346,8 +353,9 @@ theorem clone_refines (g : Nat → Nat) {m : Mem} {o : Options View} (hwf : WF o
     (hin : ∀ x ∈ o.toList, InB m x.2) :
     ∃ m' c, Options.clone g m o = .ok (m', c, none) ∧ WF c ∧ Sorted c.toList ∧ items m' c = items m o ∧
       (∀ v, InB m v → m'.read v = m.read v ∧ InB m' v) ∧
-      (∀ x ∈ c.toList, InB m' x.2 ∧ m.length ≤ x.2.bid) :=
-  clone_spec g hwf hs hin
+      (∀ x ∈ c.toList, InB m' x.2 ∧ m.length ≤ x.2.bid) := by
+  obtain ⟨m', c, h1, h2, h3, h4, h5, h6, _⟩ := clone_spec g hwf hs hin
+  exact ⟨m', c, h1, h2, h3, h4, h5, h6⟩
 
 /-- `pool.Message.Clone(dst)` (its option part, `dst.ResetOptionsTo(src.Options())`): when the source's values lie
 outside the unused part of the destination's value buffer, the destination ends up with the source's list, and the
@@ -432,6 +440,38 @@ theorem pool_resetOwnSlice_refines (g : Nat → Nat) (gb : Nat → Nat → Nat) 
   have hs : Sorted (items r.mem r.opts) := (mapVal_sorted _).mpr hinv.sorted
   exact List.Pairwise.sublist ((List.take_sublist _ _).trans (List.drop_sublist _ _)) hs
 
+/-! ## 7. clone / reset-to through the library's own users of the list -/
+
+/-- `ResponseWriter.SetResponse(code, contentFormat, body, opts…)` on a response message in any state — options left by
+an earlier `SetResponse` or set through `Message()` — leaves exactly the given options (stable sort) plus
+Content-Format when there is a body: **also when no options are given** the old ones are gone. -/
+theorem setResponse_refines (g : Nat → Nat) (gb : Nat → Nat → Nat) {r : Msg} (hinv : MsgInv r) (cf : Nat) (hcf : cf < 65536)
+    (hasBody : Bool) (inp : List (Opt View))
+    (hext : ∀ v ∈ inp.map (·.2), InB r.mem v ∧ Below r.vb.bid r.vb.off v) :
+    ∃ r', r.setResponse g gb cf hasBody inp = .ok (r', none) ∧ MsgInv r' ∧
+      items r'.mem r'.opts = responseOptions cf hasBody (inp.map (fun x => (x.1, r.mem.read x.2))) :=
+  setResponse_spec g gb hinv cf hcf hasBody inp hext
+
+/-- An observation is registered exactly for a request whose Observe option is 0, and the options it keeps are those
+of the request at that moment: **no later history on the request message** — edits, growth of its value buffer, `Reset`
+when it goes back to the pool, reuse for another request — **changes them** (`Observation.Request`,
+`GetObservationRequest` and `Cancel` read from these kept options). -/
+theorem observation_keeps_request_options (g : Nat → Nat) (gb : Nat → Nat → Nat) {r : Msg} (hinv : MsgInv r) :
+    ∃ res, observeRequest g r.mem r.opts = .ok res ∧
+      (res.2.isSome ↔ registers (items r.mem r.opts) = true) ∧
+      ∀ kept, res.2 = some kept →
+        items res.1 kept = items r.mem r.opts ∧
+        MsgInv ({ r with mem := res.1 } : Msg) ∧
+        ∀ (ops : List Msg.Op) (r' : Msg), Msg.run g gb { r with mem := res.1 } ops = .ok r' →
+          items r'.mem kept = items r.mem r.opts :=
+  observation_keeps g gb hinv
+
+/-- the general fact behind it: a view in a buffer that is neither the current nor the original value buffer of a
+message is never changed by any history on that message, `Reset` included -/
+theorem foreign_values_untouched (g : Nat → Nat) (gb : Nat → Nat → Nat) (ops : List Msg.Op) {r r' : Msg} (hinv : MsgInv r)
+    (h : Msg.run g gb r ops = .ok r') {v : View} (hf : Foreign r v) : r'.mem.read v = r.mem.read v :=
+  (foreign_run g gb ops hinv h hf).1
+
 /-! ## Non-vacuity: concrete instances of the hypotheses and of each conclusion -/
 
 section Examples
@@ -482,6 +522,15 @@ example : ((Msg.run exG exGb (Msg.new [] 2)
 example : ((Options.resetOptionsToAliased exG [[1, 2, 3, 0, 0, 0, 0, 0]]
       ⟨[(4, ⟨0, 0, 1⟩), (8, ⟨0, 1, 1⟩), (11, ⟨0, 2, 1⟩)], 3⟩ ⟨0, 3, 5⟩ 1 2).map
         (fun r => r.opts.toList.map (fun x => (x.1, r.mem.read x.2)))) = .ok [(8, [2]), (11, [3])] := by decide
+-- a response prepared with ETag and Location-Path, then replaced by an error response without options and body
+set_option maxRecDepth 100000 in
+example : (do
+    let r0 := Msg.new [[170], [108]] 16
+    let (r1, _) ← r0.setResponse exG exGb 50 true [(4, ⟨0, 0, 1⟩), (8, ⟨1, 0, 1⟩)]
+    let (r2, _) ← r1.setResponse exG exGb 0 false []
+    pure (r1.items, r2.items) : M _) = .ok ([(4, [170]), (8, [108]), (12, [50])], []) := by decide
+example : registers [(6, []), (11, [97])] = true ∧ registers [(6, [5])] = false ∧ registers [(11, [97])] = false := by decide
+example : deregistrationOptions [(6, []), (11, [97]), (11, [98]), (15, [113])] = some [(6, [1]), (11, [97]), (11, [98])] := by decide
 end Examples
 
 end CoapVerif.Props.C15
@@ -489,6 +538,7 @@ end CoapVerif.Props.C15
 section Audit
 open CoapVerif.Props.C15
 #print axioms shape_agrees
+#print axioms shape_agrees_glue
 #print axioms findPosition_total
 #print axioms findPosition_spec
 #print axioms lt_le_characterisation
@@ -519,4 +569,7 @@ open CoapVerif.Props.C15
 #print axioms pool_resetSelf_refines
 #print axioms resetOptionsTo_own_slice_benign
 #print axioms pool_resetOwnSlice_refines
+#print axioms setResponse_refines
+#print axioms observation_keeps_request_options
+#print axioms foreign_values_untouched
 end Audit
